@@ -216,7 +216,7 @@ ppointer thr_body(ppointer arg) {
   g.results[(size_t)i] = 1000 + i;                             // plain store, read by main after join
   if (g.keyfree_round) { pthread_barrier_wait(&g.bar); /* main releases the key reference here */ pthread_barrier_wait(&g.bar); }
   if (i % 3 == 0) p_uthread_exit((pint)(i + 5));
-  return NULL;
+  return (i % 2) ? (ppointer)(psize)(4096 + i) : NULL;   // a function that "simply returned" is joined with 0 whatever it returns
 }
 Outcome run_threads_case(const Case &c) {
   Outcome o; Shared g; G = &g; g.c = c;
